@@ -348,6 +348,7 @@ func init() {
 	register("C10", func(r *Report) {
 		ruleUpgradeOrder(r)
 		ruleRolloverSiblings(r)
+		rulePosCodec(r)
 		tmp := newReport(r.E, r.Property)
 		ruleHeaderBeforeRemove(tmp, "header-before-remove")
 		for _, o := range tmp.Obls {
